@@ -308,6 +308,18 @@ NATIVE_UNITS = {
                     "pushing a key that is not strictly greater than the current last item panics",
                     "1..=6 keys, every non-greater key")],
         params={"quick": {"NK": 10, "NR": 3000}, "thorough": {"NK": 13, "NR": 40000}}, timeout=1200),
+    "sliding_deque": NativeUnit("sliding_deque", "sliding_deque",
+        [("sliding_deque/src/sliding_deque.rs", os.path.join(KN, "sliding_deque.rs"))],
+        [NativeTest("verif_native_fill_and_drain_every_backing", ["C15"], "SlidingDeque (SmallVec / Vec backings)",
+                    "same triple as the c15_* harnesses (every operation against a reference VecDeque, observed after EVERY step: slice "
+                    "view, front/back, len/is_empty, returned items, advance's count; no panic) on real backings through inline -> heap "
+                    "transitions of SmallVec, which the Kani bound (<= 3 elements) never reaches",
+                    "fill to n = 0..={NF}, drain by 1,2,3,5,9,17,usize::MAX at a time through advance / pop_front / pop_front+pop_back+writes; "
+                    "Vec<u32>, SmallVec<[u32;1]>, <[u32;4]>, <[u32;8]>"),
+         NativeTest("verif_native_random_operations_every_backing", ["C15"], "SlidingDeque (SmallVec / Vec backings)",
+                    "as above on LCG-drawn operation sequences with growing / steady / shrinking phases",
+                    "{NR} sequences of 200 operations per backing, fixed seed")],
+        params={"quick": {"NF": 40, "NR": 300}, "thorough": {"NF": 120, "NR": 3000}}, timeout=1200),
     "vouched_time": NativeUnit("vouched_time", "vouched_time",
         [("vouched_time/src/lib.rs", os.path.join(KN, "vouched_time.rs"))],
         [NativeTest("verif_native_window_edges_with_real_vouchers", ["C14"], "VouchedTime::new",
@@ -367,6 +379,7 @@ PROPERTIES = {
 
 PROPERTIES["C15"] = {
     "level": "proof",
+    "native_units": ["sliding_deque"],
     "kani_units": ["sliding_deque"],
     "verus_units": ["sliding_deque"],
     "assumptions": [
